@@ -170,16 +170,29 @@ def history(cfg, log, async_, rng, n_steps, recs, meta):
             hi2 = min(1024, off + n + 8)
             cand = [p_ for p_ in range(0, 1024) if p_ < lo2 or p_ >= hi2]
             if cand:
-                off2 = rng.choice(cand)
-                seg2 = bytes([(old[off2] + 1 + rng.randrange(255)) % 256])
-                state_ = {"done": False}
+                a1 = accs[first]
+                exclusive = not any(t_ != first and max(a1.pos, accs[t_].pos) < min(a1.pos + a1.length, accs[t_].pos + accs[t_].length)
+                                    for t_ in tags)
+                if not exclusive or rng.random() < 0.4:
+                    off2 = rng.choice(cand)                      # a byte far away
+                    seg2 = bytes([(old[off2] + 1 + rng.randrange(255)) % 256])
+                else:
+                    # ... or the very item being notified, once more (only for an item that shares its bytes with no
+                    # other: what overlapping re-entrant updates mean for byte-sharing items depends on the order of
+                    # the accessor table and is not something the property pins down)
+                    off2 = accs[first].pos
+                    mid_ = old[:off] + seg + old[off + n:]
+                    seg2 = bytes([(mid_[off2] + 1 + rng.randrange(255)) % 256])
+                state_ = {"done": False, "a": 0, "b": 0}
 
                 class Trig:
                     def cb(self_, sender, o_, n_):
                         calls.append((first, 3, o_, n_, st.status_block))
                         if not state_["done"]:
                             state_["done"] = True
+                            state_["a"] = len(calls)
                             st.replace_status_block_segment(off2, seg2)
+                            state_["b"] = len(calls)
                 trig = Trig()
                 observers[(first, 3)] = trig
                 accs[first].watch(trig.cb)
@@ -195,9 +208,8 @@ def history(cfg, log, async_, rng, n_steps, recs, meta):
             off2, seg2, first = nested
             mid = old[:off] + seg + old[off + n:]
             final = st.status_block
-            in2 = lambda t_: max(off2, accs[t_].pos) < min(off2 + 1, accs[t_].pos + accs[t_].length)
-            calls_outer = [c for c in calls if not in2(c[0])]
-            calls_inner = [c for c in calls if in2(c[0])]
+            calls_inner = calls[state_["a"]:state_["b"]]         # what was delivered while the inner update ran
+            calls_outer = calls[:state_["a"]] + calls[state_["b"]:]
             unit = "F"
             if has_units:
                 unit = "C" if accs["TempUnits"].value == "C" else "F"
@@ -219,7 +231,7 @@ def history(cfg, log, async_, rng, n_steps, recs, meta):
                 for (t, oid, o2_, nw, blk) in cl:
                     crecs_.append({"item": index_[t], "o": oid, "old": _canon(accs[t], shapes[t], o2_),
                                    "new": _canon(accs[t], shapes[t], nw),
-                                   "sawnew": blk[o_:o_ + n_] == blk_new[o_:o_ + n_]})
+                                   "sawnew": blk[o_:o_ + n_] in (blk_new[o_:o_ + n_], final[o_:o_ + n_])})
                 recs.append({"off": o_, "n": n_, "items": items_, "calls": crecs_,
                              "installed": final == mid[:off2] + seg2 + mid[off2 + 1:], "reentrant": True})
                 meta.append((name, step))
